@@ -58,6 +58,21 @@ CHECKS = {
         note='The C csv module (quoting) and the file system are outside the encoding: they are exercised only when a '
              'counterexample is replayed (real file written and read back with csv.reader). Tract contents come from 4 '
              'concrete descriptions; the symbolic part is the choice structure.'),
+    'C13': dict(
+        engine='S', category='other', design_ref='DESIGN.md §4 C13',
+        technique='CrossHair symbolic execution of the real Config / PLSSDesc / Tract code with symbolic config-string '
+                  'values, parse() keyword values and channel; path tree exhausted; reference = same settings in the config string',
+        text='(i) Config.from_dict -> decompile_to_text -> Config(text) -> Config(Config) is the identity for every '
+             'assignment of groups of 4 (quick) to 6 (thorough) settings covering all 16 names (booleans unset/True/False, '
+             'directions in 4 spellings, 5 layouts, depths), and 17 near-miss names x contexts raise ValueError. (ii)+(iii) '
+             'for each group of interacting settings (parse_qq/clean_qq, the two colon modes, break_halves/ocr_scrub, '
+             'segment/sec_within, default_ns/ew, layout/segment, the three depths, wait_to_parse/suppress_lot_divs) every '
+             'combination of config value x keyword value x channel (config at creation | assigned to .config | keyword) '
+             'gives, on descriptions where the setting matters, exactly the committed result of the same effective '
+             'settings written into the config string (keyword > config), for PLSSDesc and for Tract.',
+        note='Descriptions are concrete (7-text corpus); depths from {None,1,2,3}, max<min excluded (documented unsupported). '
+             'MasterConfig precedence for default directions is covered under C08/C15. The reference is the config-string '
+             'channel of the same code, so a defect common to all channels is not visible here (C01/C06/C20 cover effects).'),
 }
 
 NOT_YET = 'check not built yet in this round (see DESIGN.md §9 build order)'
